@@ -8,6 +8,7 @@ import FordModel.Relurl
 import FordModel.Assets
 import FordModel.Footnotes
 import FordModel.Memo
+import FordModel.GraphUrl
 import FordModel.Generated.C09
 namespace Ford
 open Proto Ford.Path Ford.Nav Ford.Url Ford.StrLink Ford.ReadMore Ford.Relurl Ford.Assets Ford.Generated.C09
@@ -214,6 +215,38 @@ def dispatchC09 : List Str → Option (List Str)
     else if cmd == s "c09.pagecheck" then
       some [ guardStr pageTables.copyGuard, guardStr pageTables.filesGuard,
              (if pageTables.copyGuard == .always && pageTables.filesGuard.runs true then ['1'] else ['0']) ]
+    else if cmd == s "c09.graphcheck" then
+      some ([ (if GraphUrl.tablesOk graphTables then ['1'] else ['0']), render graphTables.parentDir,
+              (if graphTables.visibleGate then ['1'] else ['0']), (if graphTables.boundGate then ['1'] else ['0']),
+              (if graphTables.keepsForeign then ['1'] else ['0']) ] ++
+            graphTables.hosts.map fun h => h.1 ++ '=' :: GraphUrl.depthStr h.2)
+    else if cmd == s "c09.graphnode" then
+      -- fromStr, external, url ("-" = none), visible, bound, parentVisible -> URL attribute of the node ("-" = none)
+      match args with
+      | [f, e, u, v, b, pv] =>
+        let n : GraphUrl.Node := ⟨f == ['1'], e == ['1'], (if u == ['-'] then none else some (if u == [] then [] else splitSlash u)),
+                                  v == ['1'], b == ['1'], pv == ['1']⟩
+        some [match GraphUrl.nodeUrl graphTables n with
+              | some r => render r
+              | none => ['-']]
+      | _ => some [s "bad-request"]
+    else if cmd == s "c09.pagenamecheck" then
+      some [ PageName.namingStr pageTables.names.url, PageName.namingStr pageTables.names.outfile,
+             PageName.namingStr pageTables.names.loc, (if PageName.tablesOk pageTables.names then ['1'] else ['0']) ]
+    else if cmd == s "c09.withsuffix" then
+      -- `str(PurePath(name).with_suffix(".html"))`
+      match args with
+      | [x] => some [PageName.withSuffixHtml x]
+      | _ => some [s "bad-request"]
+    else if cmd == s "c09.pagename" then
+      -- location, stem, directory of the linking page (below the root) -> url path, outfile, search url, relurl'd link
+      match args with
+      | [loc, stem, dir] =>
+        some [ render (PageName.urlPath pageTables.names (locOf loc) stem),
+               render (PageName.outPath pageTables.names (locOf loc) stem),
+               render (PageName.searchPath pageTables.names (locOf loc) stem),
+               render (PageName.linkTo pageTables.names [['o']] (locOf dir) (locOf loc) stem) ]
+      | _ => some [s "bad-request"]
     else if cmd == s "c09.pagecopy" then
       -- location, stem, nItems, (name, nFiles, files…)*, nFiles, files…
       match args with
